@@ -128,6 +128,10 @@ def gen_and_small(tier):
         for y in p2[:: (1 if tier != "quick" else 3)]:
             for sizes in ([0, 1, 1], [1, 0, 1, 0]):
                 yield and_case("lf", [x, y], sizes, 1)
+    # calls only, no intersection at all: every model reports 0
+    for kind in ("and", "lf"):
+        for sizes in ([0], [0, 0]):
+            yield and_case(kind, [], sizes, 0)
     # the same operand pair repeated without any outer rank (as in test_intersector): per fiber only
     for a in s2:
         for b in s2:
@@ -495,15 +499,12 @@ def nontrivial(case, verdict):
 
 
 def signature(case, verdict, failed):
-    """classification of a failing case for known_findings.json.  A spec failure is attributed to
-    the known class only if the model reproduces the implementation's totals (agree)."""
+    """classification of a failing case (no class of C19 is a known finding: the one-shot
+    over-count, the payload dependence of numSwaps and the handling of an empty first call
+    were repaired in the library)"""
     kind = case["kind"]
     why = verdict.get("why", "")
     part = why[why.find("specfail="):] if "specfail=" in why else ""
-    t = verdict.get("tags", [])
-    if (kind == "and" and failed == ["spec"] and verdict.get("agree") and "empty-first-call" in t
-            and part == "specfail=[tf]" and case["impl"].get("tf") == "ERR"):
-        return "and:two-finger:empty-first-call:raises"
     return f"{kind}:{'/'.join(sorted(failed))}:{part}"
 
 
